@@ -57,17 +57,61 @@ theorem walk_targets_reachable (enc : String → String) (cfg : Cfg) (ops : List
           have hin : e ∈ t.tree := (List.mem_filter.1 he).1
           exact ((cache_feed_simulation enc cfg ops hok).1 r.target t hg).owner e hin
 
-/-- **C05 (static) on any reachable cache**: `once_static_exact` without the `hT` hypothesis. -/
+/-- every leaf the walk collects is a stored leaf of the target it is reported under -/
+theorem walk_item_source (c : Cache.State) (hn : NamesUnique c) (r : Req) (items : List WalkItem)
+    (hw : walkItems c r = some items) (it : WalkItem) (hit : it ∈ items) :
+    ∃ t, c.get it.1 = some t ∧ (it.2.1, it.2.2) ∈ t.tree := by
+  cases huo : r.updatesOnly with
+  | true =>
+    unfold walkItems at hw
+    simp only [huo, if_true, Option.some.injEq] at hw
+    rw [← hw] at hit; cases hit
+  | false =>
+    obtain ⟨s, _, full, found, _, hq, hf⟩ := (walkItems_mem _ r items huo hw it).1 hit
+    unfold State.query at hq
+    split at hq
+    · cases hq
+    · split at hq
+      · cases hq
+        obtain ⟨kv, hkv, hmem⟩ := List.mem_flatMap.1 hf
+        obtain ⟨e, he, rfl⟩ := List.mem_map.1 hmem
+        exact ⟨kv.2, get_of_mem hn hkv, (List.mem_filter.1 he).1⟩
+      · split at hq
+        · cases hq
+        · rename_i t hg
+          cases hq
+          obtain ⟨e, he, rfl⟩ := List.mem_map.1 hf
+          exact ⟨t, hg, (List.mem_filter.1 he).1⟩
+
+/-- a leaf has one value on a reachable cache: the `Functional` hypothesis of `once_static_exact` -/
+theorem walk_functional_reachable (enc : String → String) (cfg : Cfg) (ops : List Op)
+    (hok : OkRun enc { cfg := cfg } ops) (r : Req) (items : List WalkItem)
+    (hw : walkItems (runS enc { cfg := cfg } ops).1 r = some items) : Functional items := by
+  intro a ha b hb h1 h2
+  have hn := run_names enc ops { cfg := cfg } (NamesUnique.empty cfg)
+  obtain ⟨ta, hga, hma⟩ := walk_item_source _ hn r items hw a ha
+  obtain ⟨tb, hgb, hmb⟩ := walk_item_source _ hn r items hw b hb
+  rw [h1, hgb] at hga
+  have hEq : tb = ta := Option.some.inj hga
+  rw [← hEq] at hma
+  have hu := ((cache_feed_simulation enc cfg ops hok).1 b.1 tb hgb).unique
+  have la := lookup_some_of_mem hu hma
+  have lb := lookup_some_of_mem hu hmb
+  rw [h2, lb] at la
+  exact (Option.some.inj la).symm
+
+/-- **C05 (static) on any reachable cache**: `once_static_exact` without the `hT` and `Functional` hypotheses. -/
 theorem once_static_exact_reachable (enc : String → String) (cfg : Cfg) (ops : List Op)
     (hok : OkRun enc { cfg := cfg } ops) (id : String) (a : Acl) (r : Req) (items : List WalkItem)
     (hacc : Accepted (runS enc { cfg := cfg } ops).1 a r) (hmode : r.mode = .once)
-    (hw : walkItems (runS enc { cfg := cfg } ops).1 r = some items) (hfun : Functional items) :
+    (hw : walkItems (runS enc { cfg := cfg } ops).1 r = some items) :
     ∃ s, (subscribe { cache := (runS enc { cfg := cfg } ops).1 } id a (some r)).subs = [s] ∧
       s.status = some .ok ∧ s.alive = false ∧
       ∃ body, s.out.map (·.1) = body ++ [Resp.sync] ∧
         (∀ x ∈ body, ∃ it ∈ items, ∃ d, x = Resp.upd it.2.2 d ∧ a.check it.1 = true) ∧
         (∀ it ∈ items, a.check it.1 = true → ∃ d, Resp.upd it.2.2 d ∈ body) :=
-  once_static_exact _ id a r items hacc hmode hw hfun (walk_targets_reachable enc cfg ops hok r items hw)
+  once_static_exact _ id a r items hacc hmode hw (walk_functional_reachable enc cfg ops hok r items hw)
+    (walk_targets_reachable enc cfg ops hok r items hw)
 
 end C05
 end Gnmi
